@@ -20,16 +20,23 @@ What is proved.
   `C10_constructor_gap` (vectors that are accepted although they are not periodic knot vectors).
 * One lemma per operation family `C10_step_preserves_WF_<op>`; complete for clone, reverse, swap, reparam
   (both conventions), the affine family incl. set_dimension (≥ 1) / force_rational and the operator forms,
-  section, extrude; `_partial` (hypotheses named in the docstrings) for insert_knot / refine / split on
-  non-periodic directions, make_periodic, Curve.append.
+  section, extrude; `_partial` — under the guard of the theorem of the property that owns the operation, stated
+  in the docstring, and WITHOUT assuming anything about the result — for insert_knot / refine (open directions,
+  periodic ones with `n ≥ p+k`: C04), raise_order and lower_order (clamped directions with C05's spacing; lower
+  only as left inverse of raise), split (open; periodic: C07), make_periodic (`order + continuity ≤ n`),
+  lower_periodic (C08), Curve.append (any orders), make_splines_identical (stage-wise guard, C12's model).
+  New facts proved for this: insertion matrices (open AND periodic, wrapping case included) are row-stochastic;
+  every column of the degree-elevation matrix sums to 1 (weights stay strictly positive under raise_order);
+  `BSplineBasis.make_periodic` of any valid open basis with enough functions is an exactly periodic valid basis.
 * `C10_make_periodic_short_refuted`: `make_periodic` on a direction with fewer than `order + continuity`
   functions returns an object that is NOT well formed — in the model, and (correspondence run / oracle) in
   the real code.
-* `C10_reachable_partial`: induction over any finite history whose calls are covered by the lemmas above.
-* `C10_step_preserves_WF_checked_partial`: for the remaining families (raise_order, lower_order,
-  lower_periodic, periodic insertion/split, append of unequal orders, make_splines_identical) nothing is
-  proved; the successor state
-  is decided by evaluating `wfB`, which is what the correspondence run compares with the real object.
+* `C10_reachable_partial`: induction over any finite history — the operation alphabet is the whole API of the
+  property — whose calls satisfy their guards at the moment they are executed.
+* `C10_step_preserves_WF_checked_partial`: outside the guards (periodic directions below `n ≥ p+k`, knots of
+  multiplicity ≥ order under raise_order, general lower_order of rational objects — all of them known findings of
+  the real code) nothing can be proved; there the successor state is decided by evaluating `wfB`, which is what
+  the correspondence run compares with the real object.
 -/
 
 open Splipy Splipy.History
@@ -189,24 +196,122 @@ theorem C10_step_preserves_WF_split_partial {o : Obj K} (h : o.WellFormed) (tol 
     {os : List (Obj K)} (hs : step tol o (.split knots dir) = .ok os) : ∀ o' ∈ os, o'.WellFormed :=
   wf_of_stepOut hs (fun _ h1 => stepOut_split_wf_end_partial h tol knots dir hper hk hend h1)
 
-/-- `make_periodic(continuity, direction)`.  `_partial`: (`hb`) validity of the periodic basis built by
-    `BSplineBasis.make_periodic` is a hypothesis (the constructor compares `p+k-1` spacings up to the
-    tolerance only); (`hlong`) the direction has at least `order + continuity` functions — without it the
-    statement is false, `C10_make_periodic_short_refuted`.  Proved: shapes, sizes, positivity of the merged
-    weights (the merge is a convex combination). -/
+/-- `make_periodic(continuity, direction)`.  `_partial`: (`hlong`) the direction has at least
+    `order + continuity` functions — without it the statement is false, `C10_make_periodic_short_refuted`.
+    Everything else is proved: the periodic basis built by `BSplineBasis.make_periodic` from ANY valid
+    non-periodic basis is `Valid` (exactly periodic ghost knots, `Basis.makePeriodic_valid`), shapes, sizes,
+    positivity of the merged weights (the merge is a convex combination). -/
 theorem C10_step_preserves_WF_make_periodic_partial {o : Obj K} (h : o.WellFormed) (tol : K) (c : Option Int)
     (dir : ℕ) {os : List (Obj K)} (hs : step tol o (.makePeriodic c dir) = .ok os)
-    (hb : ∀ out : Out K, stepOut tol o (.makePeriodic c dir) = .ok out → ∀ n ∈ out.news, (n.basis dir).Valid)
     (hlong : ((o.basis dir).order : Int) + c.getD (((o.basis dir).order : Int) - 2)
       ≤ (o.basis dir).numFunctions) : ∀ o' ∈ os, o'.WellFormed :=
-  wf_of_stepOut hs (fun out h1 => stepOut_makePeriodic_wf_partial h tol c dir h1 (hb out h1) hlong)
+  wf_of_stepOut hs (fun _ h1 => stepOut_makePeriodic_wf_long_partial h tol c dir h1 hlong)
 
-/-- `Curve.append(other)`.  `_partial`: both curves have the same order (otherwise `Curve.raise_order` is
-    called, whose well-formedness is not proved). -/
+/-- `Curve.append(other)`.  `_partial`: `AppendGuard` — the orders are equal, or the curve of LOWER order
+    satisfies C05's clamped guard (`ClampedDir`: clamped knot vector, interior multiplicities below the order,
+    distinct knots more than `2·(new degree)·tol` apart) for the amount by which `Curve.raise_order` raises it.
+    Positivity of the raised weights is proved (every column of the degree-elevation matrix sums to 1). -/
 theorem C10_step_preserves_WF_append_partial {o other : Obj K} (h : o.WellFormed) (ho : other.WellFormed)
-    (tol : K) (htol : 0 ≤ tol) (hord : (o.basis 0).order = (other.basis 0).order) {os : List (Obj K)}
+    (tol : K) (htol : 0 < tol) (hg : AppendGuard tol o other) {os : List (Obj K)}
     (hs : step tol o (.append other) = .ok os) : ∀ o' ∈ os, o'.WellFormed :=
-  wf_of_stepOut hs (fun _ h1 => of_nil (stepOut_append_wf_partial h ho tol htol hord h1))
+  wf_of_stepOut hs (fun _ h1 => of_nil (stepOut_append_any_wf_partial h ho tol htol hg h1))
+
+/-- `raise_order(*raises, direction=…)` (incl. the `Curve` override).  `_partial`: `RaiseGuard` — the call
+    pattern is one of `[a]`, `[a]`+direction, one amount per direction (amounts ≥ 0), and unless all amounts are 0
+    the object has at most three directions, each a clamped basis in C05's form (`ClampedDir`: interior
+    multiplicities `1 ≤ m ≤ degree`, distinct knots more than `2·(new degree)·tol` apart, new order ≥ 2).
+    Proved on top of C05 (`C05_geometry_clamped_full/_surface/_volume`): the result array has the right size and
+    the weights of a rational object stay STRICTLY positive (`C10R.colsum_one`: every column of the non-negative
+    degree-elevation matrix sums to 1).  Not covered: periodic directions, interior knots of multiplicity = order
+    (there the real code returns NaN — known finding `curve-raise-order-singular-nan`). -/
+theorem C10_step_preserves_WF_raise_order_partial {o : Obj K} (h : o.WellFormed) (tol : K) (htol : 0 < tol)
+    (raises : List Int) (direction : Option Int) (hg : RaiseGuard tol o raises direction) {os : List (Obj K)}
+    (hs : step tol o (.raiseOrder raises direction) = .ok os) : ∀ o' ∈ os, o'.WellFormed :=
+  wf_of_stepOut hs (fun _ h1 => of_nil (stepOut_raiseOrder_wf_partial h tol htol raises direction hg h1))
+
+/-- `lower_order(*lowers)`.  `_partial`: either all amounts are 0 (a clone), or the receiver is the result of
+    `raise_order` with the same amounts on a well-formed clamped object of orders ≥ 2 (`LowerGuard`; then
+    `lower_order` returns an object with the original bases, shape and control points —
+    `C05_lower_left_inverse_clamped*`).  A guard on rational objects is unavoidable: in general `lower_order` does
+    NOT keep the weights positive (known finding `lower-order-nonpositive-weights`). -/
+theorem C10_step_preserves_WF_lower_order_partial {o : Obj K} (h : o.WellFormed) (tol : K) (htol : 0 < tol)
+    (lowers : List Int)
+    (hg : (∀ l ∈ lowers, l = 0) ∨
+      ∃ (o0 : Obj K) (raises : List Int) (direction : Option Int) (out0 : Out K),
+        o0.WellFormed ∧ LowerGuard tol o0 raises direction lowers ∧
+        stepOut tol o0 (.raiseOrder raises direction) = .ok out0 ∧ out0.recv = o)
+    {os : List (Obj K)} (hs : step tol o (.lowerOrder lowers) = .ok os) : ∀ o' ∈ os, o'.WellFormed :=
+  step_covered_wf h tol htol (.lowerOrder lowers) hg (fun _ ho => by cases ho) hs
+
+/-- `lower_periodic(periodic, direction)`.  `_partial`: either nothing changes (`periodic` is the current value),
+    or the direction is periodic with `n ≥ p + k` functions (the guard of periodic knot insertion, C04), the seam
+    has exactly its declared multiplicity (`start < knots[p]`) and `-1 ≤ periodic ≤ k`
+    (`C08_lower_periodic_partial` for the bases; here: array sizes and positive weights through every round —
+    periodic insertion matrices are row-stochastic, `C10_periodic_insertion_matrix_convex`). -/
+theorem C10_step_preserves_WF_lower_periodic_partial {o : Obj K} (h : o.WellFormed) (tol : K) (t : Int) (dir : ℕ)
+    (hcase : (o.basis dir).periodic = t ∨ ∃ k : ℕ, (o.basis dir).periodic = (k : Int) ∧ -1 ≤ t ∧ t ≤ k ∧
+      (o.basis dir).order + k ≤ (o.basis dir).numFunctions ∧
+      (o.basis dir).start < (o.basis dir).kn (o.basis dir).order)
+    {os : List (Obj K)} (hs : step tol o (.lowerPeriodic t dir) = .ok os) : ∀ o' ∈ os, o'.WellFormed :=
+  wf_of_stepOut hs (fun _ h1 => of_nil (stepOut_lowerPeriodic_wf_partial h tol t dir hcase h1))
+
+/-- **The periodic insertion matrix is row-stochastic too** (guard `n ≥ p + k`, wrapped value not the domain
+    end), including the wrapping case `mu > n` where later writes of the code overwrite earlier ones. -/
+theorem C10_periodic_insertion_matrix_convex (b : Basis K) (hv : b.Valid) (k : ℕ) (hk : b.periodic = (k : Int))
+    (hguard : b.order + k ≤ b.numFunctions) (x0 : K) (hne : C04.wrapVal b x0 ≠ b.stop) {b' : Basis K} {C : Mat K}
+    (h : b.insertKnot x0 = .ok (b', C)) : C10.RowStochastic (b.numFunctions + 1) b.numFunctions C :=
+  C10.insertKnot_stochastic_periodic b hv k hk hguard x0 hne h
+
+/-- `insert_knot(knots, direction)` on ANY direction.  `_partial`: `Obj.KnotsOK` — non-periodic direction with
+    values in `[start, end)`, or periodic direction with `n ≥ p + k` functions and values whose wrapped image is
+    not the domain end (below the guard the pinned code breaks the knot vector: known findings). -/
+theorem C10_step_preserves_WF_insert_knot_any_partial {o : Obj K} (h : o.WellFormed) (tol : K) (knots : List K)
+    (dir : ℕ) (hok : Obj.KnotsOK (o.basis dir) knots) {os : List (Obj K)}
+    (hs : step tol o (.insertKnot knots dir) = .ok os) : ∀ o' ∈ os, o'.WellFormed :=
+  wf_of_stepOut hs (fun _ h1 => of_nil (stepOut_insertKnot_any_wf_partial h tol knots dir hok h1))
+
+/-- `refine(*ns, direction=…)` on objects with periodic directions.  `_partial`: every direction is non-periodic
+    or periodic with `n ≥ p + k` (`Obj.DirOK`). -/
+theorem C10_step_preserves_WF_refine_any_partial {o : Obj K} (h : o.WellFormed) (tol : K) (htol : 0 ≤ tol)
+    (ns : List ℕ) (direction : Option ℕ) (hdirs : ∀ d, d < o.bases.size → Obj.DirOK (o.basis d))
+    {os : List (Obj K)} (hs : step tol o (.refine ns direction) = .ok os) : ∀ o' ∈ os, o'.WellFormed :=
+  wf_of_stepOut hs (fun _ h1 => of_nil (stepOut_refine_any_wf_partial h tol htol ns direction hdirs h1))
+
+/-- `split(knots, direction)` on ANY direction.  `_partial`: `SplitOK` — the non-periodic hypotheses of
+    `C10_step_preserves_WF_split_partial`, or a periodic direction with `n ≥ p + k`, first value in `[start, end)`,
+    later values in `[x0, x0 + T)` and `≠ end`, `start < x0` when there are later values, and (`hMult`) after the
+    insertion loop the first value has multiplicity ≥ p at `bisect_left` — which is PROVED for a single split
+    value under the exact-tolerance hypotheses of `C07_split_periodic_partial`
+    (`C10_step_preserves_WF_split_periodic_partial`). -/
+theorem C10_step_preserves_WF_split_any_partial {o : Obj K} (h : o.WellFormed) (tol : K) (knots : List K) (dir : ℕ)
+    (hok : SplitOK o tol knots dir) {os : List (Obj K)} (hs : step tol o (.split knots dir) = .ok os) :
+    ∀ o' ∈ os, o'.WellFormed :=
+  wf_of_stepOut hs (fun _ h1 => stepOut_split_any_wf_partial h tol knots dir hok h1)
+
+/-- `split(x0, direction)` of a PERIODIC direction (the opened object).  `_partial`: guard `n ≥ p + k`,
+    `x0 ∈ [start, end)`, and no knot other than copies of `x0` within the tolerance of `x0` (`hexR`, `hexL`:
+    the tolerance comparison of `continuity` is exact) — the hypotheses of `C07_split_periodic_partial`. -/
+theorem C10_step_preserves_WF_split_periodic_partial {o : Obj K} (h : o.WellFormed) (tol : K) (htol : 0 < tol)
+    (x0 : K) (dir : ℕ) (k : ℕ) (hk : (o.basis dir).periodic = (k : Int))
+    (hguard : (o.basis dir).order + k ≤ (o.basis dir).numFunctions)
+    (hx : (o.basis dir).start ≤ x0 ∧ x0 < (o.basis dir).stop)
+    (hexR : ∀ i, i < (o.basis dir).knots.size → (o.basis dir).kn i ≤ x0 ∨ x0 + tol ≤ (o.basis dir).kn i)
+    (hexL : ∀ i, i < (o.basis dir).knots.size → (o.basis dir).kn i < x0 - tol ∨ x0 ≤ (o.basis dir).kn i)
+    {os : List (Obj K)} (hs : step tol o (.split [x0] dir) = .ok os) : ∀ o' ∈ os, o'.WellFormed :=
+  wf_of_stepOut hs (fun _ h1 =>
+    stepOut_split_periodic_single_wf_partial h tol htol x0 dir k hk hguard hx hexR hexL h1)
+
+/-- `SplineObject.make_splines_identical(a, b, direction)` — both objects stay well formed.  `_partial`:
+    `Obj.IdenticalGuard`, the stage-wise guard over the intermediate states of C12's model: after
+    `make_splines_compatible` (no guard) and `reparam` (no guard), the object whose periodicity is lowered satisfies
+    the `lower_periodic` guard (`n ≥ p + k`, seam multiplicity), both objects satisfy `RaiseGuard` for the raise to
+    the common order, and the two lists of inserted knots are `KnotsOK` for the basis that receives them. -/
+theorem C10_step_preserves_WF_make_splines_identical_partial {s1 s2 r1 r2 : Obj K} (h1 : s1.WellFormed)
+    (h2 : s2.WellFormed) (tol : K) (htol : 0 < tol) (direction : Option DirTok)
+    (hg : Obj.IdenticalGuard tol s1 s2 direction)
+    (hs : Obj.makeIdentical tol (s1.bases.size == 1) (s2.bases.size == 1) s1 s2 direction = .ok (r1, r2)) :
+    r1.WellFormed ∧ r2.WellFormed ∧ r1.bases.size = s1.bases.size ∧ r2.bases.size = s2.bases.size :=
+  Obj.makeIdentical_wf_partial h1 h2 tol htol direction hg hs
 
 /-- **Any operation, checked**: for the families without a preservation proof (`raise_order`, `lower_order`,
     `lower_periodic`, periodic `insert_knot` / `split`, `append` of unequal orders) the successor state is
@@ -221,22 +326,24 @@ theorem C10_step_preserves_WF_checked_partial {o : Obj K} (tol : K) (op : Op K) 
 
 /-! ## Reachability -/
 
-/-- **Reachable objects are well formed** — induction over any finite history on a pool of objects.
-    `_partial`: every instruction must be *covered* at the moment it is executed (`History.CoveredRun`;
-    `History.Covered tol o op` lists, per family, exactly the hypotheses of the lemmas above: nothing for
-    clone / reverse / swap / reparam / section / extrude, `Admissible` for the affine family, non-periodic
-    direction and values in `[start, end)` for insert_knot / refine / split (+ end multiplicity ≤ p), equal
-    orders for append, `hb`/`hlong` for make_periodic; `False` for raise_order, lower_order,
-    lower_periodic), a literal `append` argument must be well formed and the pool instruction
-    `make_splines_identical` (which calls raise_order / lower_periodic) does not occur (`Instr.ArgsWF`;
-    arguments taken from the pool are well formed anyway). -/
-theorem C10_reachable_partial (tol : K) (htol : 0 ≤ tol) (ops : List (Instr K)) (pool pool' : List (Obj K))
+/-- **Reachable objects are well formed** — induction over any finite history on a pool of objects; the
+    alphabet is the whole API of the property: insert_knot, refine, raise_order, lower_order, reverse, swap, reparam
+    (both forms), split, append, make_periodic, lower_periodic, the affine family with its operator forms, section,
+    extrude, clone and the two-object instruction make_splines_identical.
+    `_partial`: every instruction must satisfy its guard at the moment it is executed (`History.CoveredRun`;
+    `History.Covered tol o op` is, per family, exactly the hypothesis of the lemma above: nothing for clone /
+    reverse / swap / reparam / section / extrude, `Admissible` for the affine family, `KnotsOK` / `DirOK` for
+    insert_knot / refine, `RaiseGuard` / `LowerGuard` for raise_order / lower_order, `SplitOK` for split,
+    `AppendGuard` for append, `order + continuity ≤ n` for make_periodic, the C08 guard for lower_periodic,
+    `Obj.IdenticalGuard` for make_splines_identical), and a literal `append` argument must be well formed
+    (`Instr.ArgsWF`; arguments taken from the pool are well formed anyway). -/
+theorem C10_reachable_partial (tol : K) (htol : 0 < tol) (ops : List (Instr K)) (pool pool' : List (Obj K))
     (hpool : ∀ o ∈ pool, o.WellFormed) (hcov : CoveredRun tol pool ops)
     (hs : run tol pool ops = .ok pool') : ∀ o ∈ pool', o.WellFormed :=
   run_wf tol htol ops pool pool' hpool hcov hs
 
 /-- One covered call (the step of the induction), in the `step` form. -/
-theorem C10_step_preserves_WF_covered {o : Obj K} (h : o.WellFormed) (tol : K) (htol : 0 ≤ tol) (op : Op K)
+theorem C10_step_preserves_WF_covered {o : Obj K} (h : o.WellFormed) (tol : K) (htol : 0 < tol) (op : Op K)
     (hc : Covered tol o op) (hoth : ∀ other, op = .append other → other.WellFormed) {os : List (Obj K)}
     (hs : step tol o op = .ok os) : ∀ o' ∈ os, o'.WellFormed :=
   step_covered_wf h tol htol op hc hoth hs
@@ -333,8 +440,8 @@ example (pool' : List (Obj ℚ))
     rcases ho with rfl | rfl
     · exact C10_exCurve_wf
     · exact C10_exSurf_wf
-  · refine ⟨trivial, fun i op h => ?_, fun p1 _ => ⟨trivial, fun i op h => ?_, fun p2 _ =>
-      ⟨trivial, fun i op h => ?_, fun p3 _ => ⟨trivial, fun i op h => ?_, fun _ _ => trivial⟩⟩⟩⟩
+  · refine ⟨trivial, trivial, fun i op h => ?_, fun p1 _ => ⟨trivial, trivial, fun i op h => ?_, fun p2 _ =>
+      ⟨trivial, trivial, fun i op h => ?_, fun p3 _ => ⟨trivial, trivial, fun i op h => ?_, fun _ _ => trivial⟩⟩⟩⟩
     all_goals
       simp only [Instr.resolve] at h
       split_ifs at h
@@ -342,6 +449,37 @@ example (pool' : List (Obj ℚ))
       injection h with h1 h2
       subst h2
       trivial
+
+/-- `C10_step_preserves_WF_raise_order_partial` / `_lower_order_partial`: the guards are satisfiable by calls that
+    succeed (rational quadratic curve, rational bilinear surface; `Lemmas/C10Raise.lean`). -/
+example := @History.exCurve_runs
+example := @History.exSurf_runs
+example : RaiseGuard (1/100 : ℚ) History.exCurve [1] none := History.exCurve_raiseGuard
+
+/-- `C10_step_preserves_WF_lower_periodic_partial`, `_insert_knot_any_partial`, `_make_periodic_partial`: guards on
+    the concrete objects (periodic direction of `C10_exSurf`: order 3, `k = 0`, 4 functions; the open quadratic
+    `C10_exCurve` has 6 ≥ 3 + 1 functions). -/
+example : (C10_exSurf.basis 0).periodic = ((0 : ℕ) : Int) ∧ -1 ≤ (-1 : Int) ∧ (-1 : Int) ≤ (0 : ℕ) ∧
+    (C10_exSurf.basis 0).order + 0 ≤ (C10_exSurf.basis 0).numFunctions ∧
+    (C10_exSurf.basis 0).start < (C10_exSurf.basis 0).kn (C10_exSurf.basis 0).order := by
+  have hb : C10_exSurf.basis 0 = ⟨3, #[-1, 0, 0, 1, 2, 3, 3, 4], 0⟩ := rfl
+  rw [hb]
+  refine ⟨rfl, by decide, by decide, by decide, ?_⟩
+  norm_num [Basis.start, Basis.kn]
+
+example : ((C10_exCurve.basis 0).order : Int) + (some (1 : Int)).getD (((C10_exCurve.basis 0).order : Int) - 2)
+    ≤ (C10_exCurve.basis 0).numFunctions := by decide
+
+/-- The extended history runs: periodic insertion, lower_periodic, make_periodic, periodic split on the pool
+    (raise_order / lower_order: `History.exCurve_runs`, `History.exSurf_runs`). -/
+def C10_exCheck2 : Bool :=
+  match run C10_tol [C10_exCurve, C10_exSurf]
+      [.on 1 (.insertKnot [1/2] 0), .on 1 (.lowerPeriodic (-1) 0), .on 0 (.makePeriodic (some 1) 0),
+       .on 2 (.split [1/2] 0)] with
+  | .ok pool => pool.all (fun o => o.wfB)
+  | .error _ => false
+
+theorem C10_exCheck2_true : C10_exCheck2 = true := by decide +kernel
 
 /-- `C10_valid_accepted` / `C10_constructor_rejects` on concrete vectors. -/
 example : Basis.mk? 3 #[0, 0, 0, 1, 2, 2, 3, 3, 3] (-1) C10_tol = .ok ⟨3, #[0, 0, 0, 1, 2, 2, 3, 3, 3], -1⟩ :=
